@@ -56,6 +56,9 @@ type an struct {
 	trClosed, trShutdown     *types.Var
 
 	sendFD, handleFD *ast.FuncDecl
+
+	// tsAtom classifies a clause of a type switch for the walker (+1: the atom holds in it)
+	tsAtom func(ts *ast.TypeSwitchStmt, cc *ast.CaseClause) int
 }
 
 func unparen(e ast.Expr) ast.Expr {
@@ -613,6 +616,46 @@ func (a *an) walk(stmts []ast.Stmt, cond int, atom atomFn, visit visitFn) (falls
 				return false, cond
 			}
 			cond = fallCond
+		case *ast.TypeSwitchStmt:
+			visit(s, cond)
+			rest := cond
+			anyFalls, fallCond, first := false, 0, true
+			merge := func(f bool, c int) {
+				if !f || c == dead {
+					return
+				}
+				if first {
+					fallCond, first = c, false
+				} else if fallCond != c {
+					fallCond = cond
+				}
+				anyFalls = true
+			}
+			var deflt *ast.CaseClause
+			for _, cl := range x.Body.List {
+				cc := cl.(*ast.CaseClause)
+				if cc.List == nil {
+					deflt = cc
+					continue
+				}
+				c := 0
+				if a.tsAtom != nil {
+					c = a.tsAtom(x, cc)
+				}
+				f, fc := a.walk(cc.Body, combine(rest, c), atom, visit)
+				merge(f, fc)
+				rest = combine(rest, -c)
+			}
+			if deflt != nil {
+				f, fc := a.walk(deflt.Body, rest, atom, visit)
+				merge(f, fc)
+			} else {
+				merge(true, rest)
+			}
+			if !anyFalls {
+				return false, cond
+			}
+			cond = fallCond
 		case *ast.ExprStmt:
 			visit(s, cond)
 			if a.containsPanic([]ast.Stmt{s}) { // panic(…), log.Fatal*/Panic*, os.Exit: the path ends here
@@ -827,25 +870,58 @@ func (a *an) clientMethod(fd *ast.FuncDecl) (*replyRow, error) {
 				}
 			}
 		case *ast.TypeSwitchStmt:
-			typeSwitch = x
-			assertCond = cond
+			var tx ast.Expr
+			switch as := x.Assign.(type) {
+			case *ast.AssignStmt:
+				tx = as.Rhs[0]
+			case *ast.ExprStmt:
+				tx = as.X
+			}
+			if ta, ok := unparen(tx).(*ast.TypeAssertExpr); ok && a.obj(ta.X) == respObj {
+				if assertStmt != nil {
+					badErrRet = true
+				}
+				assertStmt, assertCond, typeSwitch = s, cond, x
+			}
 		}
 	})
 	if nErrRet == 0 || badErrRet {
 		return fail("after the send there is no `if err != nil { return …, err }` (or a return on that path does not hand back err)")
 	}
-	if typeSwitch != nil && assertStmt == nil {
-		return a.clientTypeSwitch(row, typeSwitch, respObj, errUnexpected, fail)
+	if typeSwitch != nil {
+		// exactly one clause names (one) message type: being in it is "the assertion held"
+		n := 0
+		for _, cl := range typeSwitch.Body.List {
+			cc := cl.(*ast.CaseClause)
+			for _, t := range cc.List {
+				v, nme, err := a.msgTypeOf(a.typeOf(t))
+				if err != nil || len(cc.List) != 1 {
+					return fail("the type switch on the reply has a clause that is not a single message type")
+				}
+				row.repType, row.repName = v, nme
+				n++
+			}
+		}
+		if n != 1 {
+			return fail("the type switch on the reply names %d message types (shape not modelled)", n)
+		}
+		a.tsAtom = func(ts *ast.TypeSwitchStmt, cc *ast.CaseClause) int {
+			if ts == typeSwitch && cc.List != nil {
+				return 1
+			}
+			return 0
+		}
+		defer func() { a.tsAtom = nil }()
 	}
-	if assertStmt == nil || okObj == nil || row.repName == "" {
-		return fail("no comma-ok type assertion of the reply to a message type found")
+	if assertStmt == nil || (okObj == nil && typeSwitch == nil) || row.repName == "" {
+		return fail("no comma-ok type assertion (or type switch) of the reply to a message type found")
 	}
 	if assertCond == 1 {
 		return fail("the reply is asserted on the path where send failed")
 	}
 	// under !ok every return hands back ErrUnexpectedMsg; there is one
 	okAtom := withNot(func(e ast.Expr) int {
-		if a.obj(e) == okObj {
+		if okObj != nil && a.obj(e) == okObj {
 			return 1
 		}
 		return 0
@@ -888,46 +964,6 @@ func (a *an) clientMethod(fd *ast.FuncDecl) (*replyRow, error) {
 		return fail("a failed type assertion of the reply does not return ErrUnexpectedMsg as the error")
 	}
 	// if the assertion was in an if-init (`if x, ok := resp.(T); ok {…}`) the walker saw it through visit(Init)
-	row.unexpectedOK = true
-	return row, nil
-}
-
-func (a *an) clientTypeSwitch(row *replyRow, ts *ast.TypeSwitchStmt, respObj, errUnexpected types.Object, fail func(string, ...interface{}) (*replyRow, error)) (*replyRow, error) {
-	var x ast.Expr
-	switch s := ts.Assign.(type) {
-	case *ast.AssignStmt:
-		x = s.Rhs[0]
-	case *ast.ExprStmt:
-		x = s.X
-	}
-	ta, ok := unparen(x).(*ast.TypeAssertExpr)
-	if !ok || a.obj(ta.X) != respObj {
-		return fail("type switch is not on the reply")
-	}
-	var deflt *ast.CaseClause
-	n := 0
-	for _, cl := range ts.Body.List {
-		cc := cl.(*ast.CaseClause)
-		if cc.List == nil {
-			deflt = cc
-			continue
-		}
-		for _, t := range cc.List {
-			if v, nme, err := a.msgTypeOf(a.typeOf(t)); err == nil {
-				row.repType, row.repName = v, nme
-				n++
-			} else {
-				return fail("type switch on the reply has a case that is not a message type")
-			}
-		}
-	}
-	if n != 1 || deflt == nil || len(deflt.Body) != 1 {
-		return fail("type switch on the reply is not `case MessageR…: …; default: return …, ErrUnexpectedMsg`")
-	}
-	ret, ok := deflt.Body[0].(*ast.ReturnStmt)
-	if !ok || len(ret.Results) == 0 || a.obj(ret.Results[len(ret.Results)-1]) != errUnexpected {
-		return fail("the default case of the type switch on the reply does not return ErrUnexpectedMsg")
-	}
 	row.unexpectedOK = true
 	return row, nil
 }
